@@ -1,5 +1,5 @@
 use vstd::prelude::*;
-use vstd::std_specs::iter::IteratorSpec;
+use vstd::std_specs::iter::{IteratorSpec, FromIteratorSpec};
 verus! {
 
 pub assume_specification<'a> [<std::str::Chars<'a> as std::iter::Iterator>::last] (it: std::str::Chars<'a>) -> (r: std::option::Option<char>)
@@ -32,6 +32,10 @@ pub assume_specification<I> [<std::iter::Rev<I> as std::iter::Iterator>::nth] (i
 
 
 
+pub open spec fn reph_ins(p: Seq<char>, k: int) -> Seq<char> { p.take(k) + seq!['\u{09B0}', '\u{09CD}'] + p.skip(k) }
+#[verifier::external_body]
+pub broadcast proof fn axiom_string_from_iter(s: Seq<char>, out: String)
+    ensures #[trigger] <String as FromIteratorSpec<char>>::from_iter_ensures(s, out) ==> out@ == s {}
 pub assume_specification [String::with_capacity](n: usize) -> (r: String)
     ensures r@ == Seq::<char>::empty();
 pub assume_specification [String::len](s: &String) -> (r: usize)
@@ -209,12 +213,12 @@ impl Utility for char {
     }
 }
 const MARKS: &'static str = "`~!@#$%^+*-_=+\\|\"/;:,./?><()[]{}";
-enum PendingKar {
+pub enum PendingKar {
     I,
     E,
     OI,
 }
-pub struct FixedMethod { buffer: String, typed: String, pending_kar: Option<PendingKar> }
+pub struct FixedMethod { pub buffer: String, pub typed: String, pub pending_kar: Option<PendingKar> }
 pub struct Config { fixed_vowel: bool, fixed_chandra: bool, fixed_kar: bool, fixed_old_reph: bool, fixed_kar_order: bool, fixed_numpad: bool }
 impl Config {
 pub fn get_fixed_automatic_vowel(&self) -> bool {
@@ -453,7 +457,9 @@ fn process_key_value(&mut self, value: &str, config: &Config)
 
         self.buffer.push_str(value);
     }
-fn is_reph_moveable(&self) -> bool {
+fn is_reph_moveable(&self) -> bool
+        requires self.buffer@.len() > 0
+    {
         let mut buf_chars = self.buffer.chars().rev();
         let right_most = buf_chars.next().unwrap();
         let right_most = if right_most == B_CHANDRA {
@@ -466,7 +472,13 @@ fn is_reph_moveable(&self) -> bool {
         right_most.is_pure_consonant()
             || (right_most.is_vowel() && before_right_most.is_pure_consonant())
     }
-fn insert_old_style_reph(&mut self) {
+fn insert_old_style_reph(&mut self)
+        requires old(self).buffer@.len() > 0
+        ensures exists|k: int| 0 <= k <= old(self).buffer@.len() && final(self).buffer@ == #[trigger] reph_ins(old(self).buffer@, k),
+                final(self).typed == old(self).typed, final(self).pending_kar == old(self).pending_kar
+    {
+        broadcast use axiom_string_from_iter;
+        let ghost p = self.buffer@;
         let len = self.buffer.chars().count();
         let reph_moveable = self.is_reph_moveable();
 
@@ -519,13 +531,18 @@ fn insert_old_style_reph(&mut self) {
             self.buffer.push(B_R);
             self.buffer.push(B_HASANTA);
             self.buffer.push_str(&temp);
+            proof { assert(self.buffer@ =~= reph_ins(p, len - step)); }
         } else {
             self.buffer.push(B_R);
             self.buffer.push(B_HASANTA);
+            proof { assert(self.buffer@ =~= reph_ins(p, len as int)); }
         }
     }
     #[verifier::external_body]
-    fn internal_backspace_step(&mut self, n: usize) { unimplemented!() }
+    fn internal_backspace_step(&mut self, n: usize)
+        ensures final(self).buffer@ == old(self).buffer@.take(old(self).buffer@.len() - (if n <= old(self).buffer@.len() { n as int } else { old(self).buffer@.len() as int })),
+                final(self).typed == old(self).typed, final(self).pending_kar == old(self).pending_kar
+    { unimplemented!() }
 }
 fn is_left_standing_kar(c: char) -> bool {
     c == B_I_KAR || c == B_E_KAR || c == B_OI_KAR
